@@ -86,6 +86,11 @@ type Ctx struct {
 	// beyond the prefix (global order policies; not explored further).
 	MapPolicy func(n int) []int
 	NoMap     bool // do not treat map order as a choice at all
+	// FullPerm: map ranges of up to this many keys are explored with all n!
+	// orders (default 4); FullPermSite restricts the larger limit to range
+	// statements whose site contains the string.
+	FullPerm     int
+	FullPermSite string
 
 	visit  func(sig uint64, used cost) bool // state cache of the explorer (nil: none)
 	used   cost
@@ -155,12 +160,16 @@ func (c *Ctx) Order(site string, keys []string) []int {
 	if c.MapPolicy != nil && len(c.Trace) >= len(c.prefix) {
 		return c.MapPolicy(n)
 	}
-	alts := permAlternatives(n)
+	full := 4
+	if c.FullPerm > full && (c.FullPermSite == "" || strings.Contains(site, c.FullPermSite)) {
+		full = c.FullPerm
+	}
+	alts := permAlternatives(n, full)
 	pick := c.choose(CMap, alts, func() string { return site + " [" + strings.Join(keys, ",") + "]" })
 	if pick != 0 {
 		vsched.Fold(uint64(len(c.Trace)), uint64(pick))
 	}
-	return permOf(n, pick)
+	return permOf(n, pick, full)
 }
 
 var _ vsched.Controller = (*Ctx)(nil)
@@ -168,11 +177,11 @@ var _ vmap.Controller = (*Ctx)(nil)
 
 // permAlternatives: n<=4: all n! permutations; else identity, reversal, n-1
 // rotations, n-1 adjacent transpositions.
-func permAlternatives(n int) int {
+func permAlternatives(n, full int) int {
 	switch {
 	case n <= 1:
 		return 1
-	case n <= 4:
+	case n <= full:
 		f := 1
 		for i := 2; i <= n; i++ {
 			f *= i
@@ -183,7 +192,7 @@ func permAlternatives(n int) int {
 	}
 }
 
-func permOf(n, k int) []int {
+func permOf(n, k, full int) []int {
 	p := make([]int, n)
 	for i := range p {
 		p[i] = i
@@ -191,7 +200,7 @@ func permOf(n, k int) []int {
 	if k == 0 {
 		return p
 	}
-	if n <= 4 {
+	if n <= full {
 		// k-th permutation in lexicographic order (factorial number system)
 		avail := append([]int(nil), p...)
 		f := 1
@@ -282,6 +291,9 @@ type Explorer struct {
 	Labels   bool
 	NoMap    bool
 	Policies bool // additionally run the two global map-order policies
+	// FullPerm / FullPermSite: see Ctx.
+	FullPerm     int
+	FullPermSite string
 	// Cache enables happens-before state caching: an execution that reaches a global
 	// state (identified by the vsched signature) which was already reached with at
 	// least the same remaining budgets is cut off there.
@@ -334,7 +346,7 @@ func (x *Explorer) Explore(run func(c *Ctx), visit func(c *Ctx) bool) ExploreSta
 				stop = true
 				break
 			}
-			c := &Ctx{prefix: prefix, Labels: x.Labels, NoMap: x.NoMap, visit: visitFn}
+			c := &Ctx{prefix: prefix, Labels: x.Labels, NoMap: x.NoMap, visit: visitFn, FullPerm: x.FullPerm, FullPermSite: x.FullPermSite}
 			run(c)
 			st.Executions++
 			if c.Pruned {
